@@ -9,8 +9,10 @@ Levels.
   (stack, name, version, flavor) ↦ (directory, table), global tags keyed by (stack, tag, name, flavor) ↦
   version.  It is what a fresh reader of the files sees (`Model/DbFile.lean` relates it to version files
   holding several flavors and to chain files).
-* `Eff` — the primitive effects of a command, in the order the code performs them: one constructor per
-  `Database` mutation, one per write-through on the in-memory stack, and `save` (persist the cache file).
+* `Eff` — the effects of a command, in the order the code performs them.  Every `Database` mutation in
+  `Eups.py` is followed by the same three steps — the mutation, its write-through on the in-memory
+  `ProductStack`, `save(flavor)` of that stack's cache file — so one constructor stands for the triple
+  (`Model/Cache.lean` applies the three parts in order and can stop after the first: a crash).
 * A command is a function `Proc → Outcome × Proc`; `Proc` carries the state the command started from and
   the trace of effects so far, the current database and in-memory view being *defined* as the replay of the
   trace.  A crashed command is a prefix of its trace (`Model/Cache.lean`).
@@ -189,47 +191,44 @@ def Spec.delDecl (c : Spec) (s : Nat) (n : Name) (v : Ver) (f : Flav) : Spec :=
 /-! ## effects -/
 
 inductive Eff
-  /-- `Database.declare(product)`: write the flavor's block of the version file, then assign `product.tags` -/
-  | dbDeclare (d : Decl) (tag : Option Tag)
-  /-- `Database.undeclare(product)`: unassign the tags found on it, remove the flavor's block -/
-  | dbUndeclare (s : Nat) (n : Name) (v : Ver) (f : Flav)
-  /-- `Database.assignTag(tag, name, version, flavor)` in the stack of the product -/
-  | dbAssign (s : Nat) (t : Tag) (n : Name) (f : Flav) (v : Ver)
-  /-- `Database.unassignTag(tag, name, flavor)` -/
-  | dbUnassign (s : Nat) (t : Tag) (n : Name) (f : Flav)
-  /-- `ProductStack.addProduct(product)` -/
-  | memAdd (d : Decl) (tag : Option Tag)
-  /-- `ProductStack.removeProduct(name, flavor, version)` -/
-  | memRemove (s : Nat) (n : Name) (v : Ver) (f : Flav)
-  /-- `ProductStack.assignTag(tag, name, version, flavor)` -/
-  | memAssign (s : Nat) (t : Tag) (n : Name) (f : Flav) (v : Ver)
-  /-- `ProductStack.unassignTag(tag, name, flavor)` -/
-  | memUnassign (s : Nat) (t : Tag) (n : Name) (f : Flav)
-  /-- `ProductStack.save(flavor)` of the stack's cache -/
-  | save (s : Nat) (f : Flav)
+  /-- `Database.declare(product)` (the flavor's block of the version file, then `product.tags`);
+  `ProductStack.addProduct(product)`; `save(flavor)` -/
+  | declare (d : Decl) (tag : Option Tag)
+  /-- `Database.undeclare(product)` (unassign the tags found on it, remove the flavor's block);
+  `ProductStack.removeProduct(name, flavor, version)`; `save(flavor)` -/
+  | undeclare (s : Nat) (n : Name) (v : Ver) (f : Flav)
+  /-- `Database.assignTag(tag, name, version, flavor)` in the stack of the product;
+  `ProductStack.assignTag(...)`; `save(flavor)` -/
+  | assign (s : Nat) (t : Tag) (n : Name) (f : Flav) (v : Ver)
+  /-- `Database.unassignTag(tag, name, flavor)`; `if ProductStack.unassignTag(...): save(flavor)` -/
+  | unassign (s : Nat) (t : Tag) (n : Name) (f : Flav)
   /-- `shutil.rmtree(product.dir)` (`Eups.remove`) -/
   | rmTree (d : Dir)
   deriving DecidableEq, Repr
 
+/-- the effect starts with a `Database` mutation (the points where a command can be killed "between the
+database update and the cache update") -/
 def Eff.isDb : Eff → Bool
-  | .dbDeclare .. | .dbUndeclare .. | .dbAssign .. | .dbUnassign .. => true
-  | _ => false
+  | .rmTree _ => false
+  | _ => true
 
 /-- `Database.assignTag` raises `ProductNotFound` unless the version file declares the flavor -/
 def Spec.assign (c : Spec) (s : Nat) (t : Tag) (n : Name) (f : Flav) (v : Ver) : Spec :=
   if c.hasDecl s n v f then c.setTag ⟨s, t, n, f, v⟩ else c
 
+/-- a declaration written together with its tag -/
+def Spec.addDecl (c : Spec) (d : Decl) (tag : Option Tag) : Spec :=
+  match tag with
+  | none => c.setDecl d
+  | some t => (c.setDecl d).setTag ⟨d.stack, t, d.name, d.flav, d.ver⟩
+
 /-- what an effect does to the database files (abstractly) -/
 def applyDb : Eff → Spec → Spec
-  | .dbDeclare d tag, c =>
-    let c1 := c.setDecl d
-    match tag with
-    | none => c1
-    | some t => c1.setTag ⟨d.stack, t, d.name, d.flav, d.ver⟩
-  | .dbUndeclare s n v f, c => c.delDecl s n v f
-  | .dbAssign s t n f v, c => c.assign s t n f v
-  | .dbUnassign s t n f, c => c.delTag s t n f
-  | _, c => c
+  | .declare d tag, c => c.addDecl d tag
+  | .undeclare s n v f, c => c.delDecl s n v f
+  | .assign s t n f v, c => c.assign s t n f v
+  | .unassign s t n f, c => c.delTag s t n f
+  | .rmTree _, c => c
 
 /-- `ProductFamily.removeVersion` + `ProductStack.removeProduct`: drop the version and the tags naming it
 (`fixed`; the pinned code scanned `versions.items()` and dropped none — D1), then drop the family, tags
@@ -241,22 +240,27 @@ def memRemove (fixed : Bool) (m : Spec) (s : Nat) (n : Name) (v : Ver) (f : Flav
   if decls.any fun x => x.stack == s && x.name == n && x.flav == f then ⟨decls, tags⟩
   else ⟨decls, tags.filter fun x => !(x.stack == s && x.name == n && x.flav == f)⟩
 
-/-- what an effect does to the in-memory stacks of the process -/
+/-- the write-through of an effect on the in-memory stacks of the process -/
 def applyMemG (fixed : Bool) : Eff → Spec → Spec
-  | .memAdd d tag, m =>
-    let m1 := m.setDecl d
-    match tag with
-    | none => m1
-    | some t => m1.setTag ⟨d.stack, t, d.name, d.flav, d.ver⟩
-  | .memRemove s n v f, m => memRemove fixed m s n v f
-  | .memAssign s t n f v, m => m.assign s t n f v
-  | .memUnassign s t n f, m => m.delTag s t n f
-  | _, m => m
+  | .declare d tag, m => m.addDecl d tag
+  | .undeclare s n v f, m => memRemove fixed m s n v f
+  | .assign s t n f v, m => m.assign s t n f v
+  | .unassign s t n f, m => m.delTag s t n f
+  | .rmTree _, m => m
 
 /-- the tree as it is: `ProductFamily.removeVersion` with the D1 repair -/
 def applyMem : Eff → Spec → Spec := applyMemG true
 /-- the pinned tree's write-through (kept for the witness of D1) -/
 def applyMemPinned : Eff → Spec → Spec := applyMemG false
+
+/-- the cache file the effect saves after its write-through, given the in-memory stacks *before* it
+(`unassignTag` saves only when the in-memory stack carried the tag) -/
+def Eff.saves (m : Spec) : Eff → Option (Nat × Flav)
+  | .declare d _ => some (d.stack, d.flav)
+  | .undeclare s _ _ f => some (s, f)
+  | .assign s _ _ f _ => some (s, f)
+  | .unassign s t n f => if m.hasTag s t n f then some (s, f) else none
+  | .rmTree _ => none
 
 /-! ## processes -/
 
@@ -295,19 +299,13 @@ def assignTag (self : Flav) (t : Tag) (n : Name) (v : Ver) (stacks : List Nat) (
   | none => (.notFound, p)
   | some prod =>
     if !(p.db.hasDecl prod.stack n v self) then (.notFound, p) else
-    let p := p.emit (.dbAssign prod.stack t n self v)
-    let p := p.emit (.memAssign prod.stack t n self v)
-    (.ok, p.emit (.save prod.stack self))
+    (.ok, p.emit (.assign prod.stack t n self v))
 
 /-! ## `Eups.unassignTag` -/
 
 /-- the tail of `Eups.unassignTag` once the stack is known: the dry-run guard, the database, the cache -/
 def doUnassign (self : Flav) (t : Tag) (n : Name) (s : Nat) (noaction : Bool) (p : Proc) : Outcome × Proc :=
-  if noaction then (.ok, p) else
-  let p := p.emit (.dbUnassign s t n self)
-  if p.mem.hasTag s t n self then
-    (.ok, (p.emit (.memUnassign s t n self)).emit (.save s self))
-  else (.ok, p)
+  if noaction then (.ok, p) else (.ok, p.emit (.unassign s t n self))
 
 def unassignTag (nst : Nat) (self : Flav) (t : Tag) (n : Name) (v : Option Ver) (stack : Option Nat)
     (noaction : Bool) (p : Proc) : Outcome × Proc :=
@@ -420,8 +418,7 @@ def declareFinish (nst : Nat) (a : DeclareArgs) (r : Resolved) (tag : Option Tag
     Outcome × Proc :=
   let p1 : Proc :=
     if rd == .write && !a.noaction then
-      let dcl : Decl := ⟨r.target, a.name, a.ver, a.self, r.d, r.table⟩
-      ((p.emit (.dbDeclare dcl tag)).emit (.memAdd dcl tag)).emit (.save r.target a.self)
+      p.emit (.declare ⟨r.target, a.name, a.ver, a.self, r.d, r.table⟩ tag)
     else p
   match tag with
   | none => (.ok, p1)
@@ -470,7 +467,7 @@ def untagFirst (nst : Nat) (a : UndeclareArgs) (v : Ver) (s : Nat) (p : Proc) : 
 def removeVersion (a : UndeclareArgs) (v : Ver) (s : Nat) (p : Proc) : Outcome × Proc :=
   if a.noaction then (.ok, p) else
   if !(p.db.hasDecl s a.name v a.self) then (.notFound, p) else   -- `Database.undeclare` found nothing
-  (.ok, ((p.emit (.dbUndeclare s a.name v a.self)).emit (.memRemove s a.name v a.self)).emit (.save s a.self))
+  (.ok, p.emit (.undeclare s a.name v a.self))
 
 /-- the part of `Eups.undeclare` after the tag-only exit -/
 def undeclareVersion (nst : Nat) (a : UndeclareArgs) (ver : Option Ver) (p : Proc) : Outcome × Proc :=
